@@ -231,7 +231,7 @@ def r16_3(run):
         run.ob('R16.3', h, h.node, '%s records %s of the current entry' % (hn, key), ok, slot='handler:%s' % hn, message='%s does not store %s' % (hn, key))
     rb = run.idx.find_method(mp, '_router_begin')
     g = cfg_of(rb)
-    first = [n for n in g.real_nodes() if n.kind == 'stmt' and not (isinstance(n.ast, ast.Expr) and isinstance(n.ast.value, ast.Constant))]
+    first = [n for n in g.real_nodes() if n.kind == 'stmt' and not is_noise(n.ast)]
     ok = bool(first) and any(is_call_to(a, 'self._maybe_callback_router') for a in node_asts(sorted(first, key=lambda n: n.lineno)[0]))
     run.ob('R16.3', rb, rb.node, 'a new "r" line first emits the previous entry', ok, slot='emit-previous', message='_router_begin does not flush the previous relay first')
     dct = [n for n in walk_unit(rb) if isinstance(n, ast.Assign) and assign_to(n, 'self._relay_attrs') is not None]
